@@ -238,6 +238,8 @@ def run(chk, ctx):
                    detail={'expected': 'keys of at most 128 characters are '
                            'emitted unchanged'},
                    site='pamqp/encode.py::field_table')
+    # ---- refusals
+    refusal_checks(chk, ctx)
     # ---- containers
     container_checks(chk, ctx, decs)
     chk.assume('Decimal arithmetic rebuilds raw * 10^-scale exactly; IEEE '
@@ -378,3 +380,99 @@ def container_checks(chk, ctx, decs):
            'each list item is appended as encode_table_value(item)',
            site='pamqp/encode.py::field_array')
     chk.floor('C03.C', 8, 'container facts')
+
+
+def _leaves(g):
+    """Leaves of a guard term under and / or / not / cond."""
+    if isinstance(g, Sym) and g.op in ('and', 'or'):
+        for a in g.args:
+            yield from _leaves(a)
+    elif isinstance(g, Sym) and g.op == 'not':
+        yield from _leaves(g.args[0])
+    elif isinstance(g, Sym) and g.op == 'cond':
+        yield from _leaves(g.args[1])
+        yield from _leaves(g.args[2])
+    else:
+        yield g
+
+
+def classify_refusal(leaf, P):
+    """-> 'type' | 'range' | 'content' | 'other'"""
+    if not isinstance(leaf, Sym):
+        return 'other'
+    if leaf.op in ('isinstance', 'isinstance_dyn'):
+        return 'type'
+    if leaf.op in ('is', 'isnot') and leaf.args[1] is None:
+        return 'type'
+    if leaf.op in ('is', 'isnot', 'eq', 'ne') and any(
+            isinstance(a, Sym) and a.op == 'type' for a in leaf.args):
+        return 'type'
+    if leaf.op in ('in', 'notin') and isinstance(leaf.args[1], T.Ref):
+        return 'type'  # dispatch-table membership (type / wire-type name)
+    if leaf.op in ('lt', 'le', 'gt', 'ge', 'eq', 'ne'):
+        a, b = leaf.args
+
+        def plain(x):
+            # the value itself or an element of it
+            return x is P or (isinstance(x, Sym) and x.op in (
+                'elem', 'index', 'typed', 'param'))
+        if (plain(a) and isinstance(b, int)) or \
+                (plain(b) and isinstance(a, int)):
+            return 'range'
+        if T.mentions(leaf, lambda t: t is P):
+            # the value compared with itself, a float, another value ...
+            return 'content'
+    if T.mentions(leaf, lambda t: t.op in ('len', 'method', 'attr')):
+        return 'content'
+    return 'other'
+
+
+def refusal_checks(chk, ctx):
+    """C03.A: an explicit refusal in a value encoder depends on the type of
+    the value or on an integer range only (ranges themselves are judged by
+    C03.I / C03.S) - never on the content of a value of an accepted type."""
+    chk.rule('C03.A', 'every explicit raise in the table-value encoders is '
+             'guarded by a type test or an integer range test of the value: '
+             'no value of a documented type is refused for its content '
+             '(length, elements, attributes)')
+    prog = ctx.prog
+    emod = prog.module('encode')
+    n = 0
+    for fi in emod.functions.values():
+        if fi.short in ('encode.support_deprecated_rabbitmq',
+                        'encode.by_type', 'encode.decimal'):
+            continue  # by_type repeats the others; decimal: C03.S
+        if fi.name.startswith('_'):
+            continue  # private helpers are analysed inlined in their callers
+        try:
+            it, outs = codec.run(prog, fi)
+        except I.Unsupported as err:
+            chk.undecide('C03.A', fi.short, str(err))
+            continue
+        args = codec.symbolic_args(fi)
+        P = args[0] if args else None
+        seen = set()
+        for o in outs:
+            if o.kind != 'raise' or o.exc.primitive or o.exc.in_handler:
+                continue
+            atoms = [a for a in o.state.kn.atoms if isinstance(a, Sym)]
+            g = atoms[-1] if atoms else None
+            if g is None or (o.exc.site, g) in seen:
+                continue
+            seen.add((o.exc.site, g))
+            n += 1
+            kinds = {classify_refusal(x, P) for x in _leaves(g)}
+            cons = '%s refusal at %s' % (fi.short, o.exc.site)
+            if 'content' in kinds:
+                chk.ob('C03.A', cons, False,
+                       'refuses depending on %s: a property of the content '
+                       'of the value, not its type or integer range' %
+                       T.show(g)[:120], site=o.exc.site)
+            elif 'other' in kinds:
+                chk.undecide('C03.A', cons, 'guard %s is not recognised as '
+                             'a type or range test' % T.show(g)[:120])
+            else:
+                chk.ob('C03.A', cons, True, 'refuses on %s (%s)' % (
+                    '/'.join(sorted(kinds)), T.show(g)[:80]),
+                    site=o.exc.site)
+    chk.floor('C03.A', 20, 'explicit refusals classified', count=n)
